@@ -17,17 +17,17 @@ import (
 )
 
 type Engine struct {
-	repo     string
-	fset     *token.FileSet
-	prog     *ssa.Program
-	pkgs     map[string]*ssa.Package // by package name: lua, pm, parse
-	ppkgs    map[string]*packages.Package
-	db       *SpecDB
-	funcs    map[string]*ssa.Function
-	fnKeys   map[*ssa.Function]string
-	inlCache map[*ssa.Function]bool
-	srcCache map[string][]string
-	fnIDs    map[*ssa.Function]int
+	repo      string
+	fset      *token.FileSet
+	prog      *ssa.Program
+	pkgs      map[string]*ssa.Package // by package name: lua, pm, parse
+	ppkgs     map[string]*packages.Package
+	db        *SpecDB
+	funcs     map[string]*ssa.Function
+	fnKeys    map[*ssa.Function]string
+	inlCache  map[*ssa.Function]bool
+	srcCache  map[string][]string
+	fnIDs     map[*ssa.Function]int
 	typeCache map[string]types.Type
 	typeIDs   map[string]int
 }
@@ -447,12 +447,12 @@ func (e *Engine) staticType(x *Expr, params map[string]types.Type) types.Type {
 // ---------- per-function verification ----------
 
 type FuncResult struct {
-	Key        string
-	Obls       []*Obligation
-	Errs       []string
-	Abstracted []string
-	Opaque     int
-	Lines      int
+	Key         string
+	Obls        []*Obligation
+	Errs        []string
+	Abstracted  []string
+	Opaque      int
+	Lines       int
 	Unsupported string
 }
 
@@ -494,6 +494,35 @@ func (e *Engine) verifyFunction(key string, ct *Contract) (res *FuncResult) {
 				if _, _, isPS := isPtrToStruct(p.Type()); isPS {
 					vc.emit(fmt.Sprintf("(assert (not (= %s 0)))", r.t))
 					st.nonnil[r.t] = true
+				}
+			}
+		}
+	}
+	if rps, ok := replayParams(fn); ok {
+		for i, rp := range rps {
+			sym := f.env[fn.Params[i]]
+			switch rp.kind {
+			case "int", "bool":
+				if s, isS := sym.(sv); isS {
+					vc.replayIn = append(vc.replayIn, s.t)
+				}
+			case "strlen":
+				if s, isS := sym.(sv); isS {
+					vc.replayIn = append(vc.replayIn, vc.define("in_len_"+rp.name, "Int", fmt.Sprintf("(slen %s)", s.t)))
+				}
+			case "ptrint":
+				et := rp.typ.Underlying().(*types.Pointer).Elem()
+				var a adv
+				switch x := sym.(type) {
+				case adv:
+					a = x
+				case sv:
+					a = adv{"C:" + typeStr(et), []Term{x.t}, et}
+				default:
+					continue
+				}
+				if vs, okv := vc.load(st, a).(sv); okv {
+					vc.replayIn = append(vc.replayIn, vc.define("in_cell_"+rp.name, "Int", vs.t))
 				}
 			}
 		}
@@ -560,6 +589,13 @@ func (e *Engine) verifyFunction(key string, ct *Contract) (res *FuncResult) {
 			continue
 		}
 		anyRet = true
+		if ct.HasFrom {
+			// only exits that pass through the from@ anchor are verified
+			vc.curB, vc.curI = r.b, len(r.b.Instrs)
+			if !vc.inVerifiedTail() {
+				continue
+			}
+		}
 		post := vc.newScope(r.st, vc.entry)
 		post.vars = vc.topVars
 		post.resultNames = resultNames(fn.Signature.Results())
@@ -567,6 +603,9 @@ func (e *Engine) verifyFunction(key string, ct *Contract) (res *FuncResult) {
 			post.results = append(post.results, tv{v, fn.Signature.Results().At(i).Type()})
 		}
 		for i, en := range ct.Ensures {
+			if en.Assumed {
+				continue
+			}
 			t, err := post.evalBool(en.E)
 			if err != nil {
 				vc.errs = append(vc.errs, fmt.Sprintf("%s: %v", en.Line, err))
@@ -583,9 +622,11 @@ func (e *Engine) verifyFunction(key string, ct *Contract) (res *FuncResult) {
 			if len(tags) == 0 {
 				tags = ct.Tags
 			}
+			vc.curClause = en.E
 			vc.withTags(tags, func() {
 				vc.oblige(r.st, "POST", label, t, key, "ensures "+en.E.String())
 			})
+			vc.curClause = nil
 		}
 		if ct.NoReturn {
 			vc.oblige(r.st, "NORETURN", fmt.Sprintf("ret%d", ri+1), "false", key, "function is declared noreturn")
@@ -887,20 +928,31 @@ func (e *Engine) structuralObligations() []*Obligation {
 									if !ok {
 										continue
 									}
+									// elements that are structs: the function-typed field of the element
+									addrs := []ssa.Value{ia}
 									for _, r2 := range *ia.Referrers() {
-										if s2, ok := r2.(*ssa.Store); ok && s2.Addr == ssa.Value(ia) {
-											v := s2.Val
-											for {
-												if ct, ok := v.(*ssa.ChangeType); ok {
-													v = ct.X
-													continue
-												}
-												break
+										if fa, ok := r2.(*ssa.FieldAddr); ok {
+											if _, isFn := fa.Type().(*types.Pointer).Elem().Underlying().(*types.Signature); isFn {
+												addrs = append(addrs, fa)
 											}
-											if f, ok := v.(*ssa.Function); ok {
-												vals[c.Int64()] = f.Name()
-											} else {
-												vals[c.Int64()] = "?"
+										}
+									}
+									for _, ad := range addrs {
+										for _, r2 := range *ad.Referrers() {
+											if s2, ok := r2.(*ssa.Store); ok && s2.Addr == ad {
+												v := s2.Val
+												for {
+													if ct, ok := v.(*ssa.ChangeType); ok {
+														v = ct.X
+														continue
+													}
+													break
+												}
+												if f, ok := v.(*ssa.Function); ok {
+													vals[c.Int64()] = f.Name()
+												} else if _, had := vals[c.Int64()]; !had {
+													vals[c.Int64()] = "?"
+												}
 											}
 										}
 									}
@@ -967,6 +1019,11 @@ func (e *Engine) structuralObligations() []*Obligation {
 			bad[id] = append(bad[id], bad["constglobal "+d.Name]...)
 			if got, ok := initVals[d.Name]; !ok {
 				bad[id] = append(bad[id], "no slice-literal initialiser found in the package initialiser")
+			} else if n := len(d.Vals); n > 0 && d.Vals[n-1] == "*" {
+				// prefix claim: the listed functions come first, in order
+				if len(got) < n-1 || strings.Join(got[:n-1], " ") != strings.Join(d.Vals[:n-1], " ") {
+					bad[id] = append(bad[id], "initialised to ["+strings.Join(got, ", ")+"]")
+				}
 			} else if strings.Join(got, " ") != strings.Join(d.Vals, " ") {
 				bad[id] = append(bad[id], "initialised to ["+strings.Join(got, ", ")+"]")
 			}
